@@ -16,7 +16,10 @@ var MaxIntrospectionDepth = Rule{
 		// returns `true` if the limit has been reached.
 		observers.OnField(func(walker *Walker, field *ast.Field) {
 			if field.Name == "__schema" || field.Name == "__type" {
-				visitedFragments := make(map[string]bool)
+				visitedFragments := &introspectionDepthState{
+					inProgress: make(map[string]bool),
+					cleared:    make(map[string]int),
+				}
 				if checkDepthField(field, visitedFragments, 0) {
 					addError(
 						Message(`Maximum introspection depth exceeded`),
@@ -29,7 +32,7 @@ var MaxIntrospectionDepth = Rule{
 	},
 }
 
-func checkDepthSelectionSet(selectionSet ast.SelectionSet, visitedFragments map[string]bool, depth int) bool {
+func checkDepthSelectionSet(selectionSet ast.SelectionSet, visitedFragments *introspectionDepthState, depth int) bool {
 	for _, child := range selectionSet {
 		if field, ok := child.(*ast.Field); ok {
 			if checkDepthField(field, visitedFragments, depth) {
@@ -50,7 +53,7 @@ func checkDepthSelectionSet(selectionSet ast.SelectionSet, visitedFragments map[
 	return false
 }
 
-func checkDepthField(field *ast.Field, visitedFragments map[string]bool, depth int) bool {
+func checkDepthField(field *ast.Field, visitedFragments *introspectionDepthState, depth int) bool {
 	if field.Name == "fields" ||
 		field.Name == "interfaces" ||
 		field.Name == "possibleTypes" ||
@@ -63,10 +66,14 @@ func checkDepthField(field *ast.Field, visitedFragments map[string]bool, depth i
 	return checkDepthSelectionSet(field.SelectionSet, visitedFragments, depth)
 }
 
-func checkDepthFragmentSpread(fragmentSpread *ast.FragmentSpread, visitedFragments map[string]bool, depth int) bool {
+func checkDepthFragmentSpread(fragmentSpread *ast.FragmentSpread, visitedFragments *introspectionDepthState, depth int) bool {
 	fragmentName := fragmentSpread.Name
-	if visited, ok := visitedFragments[fragmentName]; ok && visited {
+	if visitedFragments.inProgress[fragmentName] {
 		// Fragment cycles are handled by `NoFragmentCyclesRule`.
+		return false
+	}
+	if clearedAt, ok := visitedFragments.cleared[fragmentName]; ok && depth <= clearedAt {
+		// Already explored from at least this depth without reaching the limit.
 		return false
 	}
 	fragment := fragmentSpread.Definition
@@ -80,9 +87,25 @@ func checkDepthFragmentSpread(fragmentSpread *ast.FragmentSpread, visitedFragmen
 	// take a mutable approach for efficiency's sake. Importantly visiting a
 	// fragment twice is fine, so long as you don't do one visit inside the
 	// other.
-	visitedFragments[fragmentName] = true
-	defer delete(visitedFragments, fragmentName)
-	return checkDepthSelectionSet(fragment.SelectionSet, visitedFragments, depth)
+	visitedFragments.inProgress[fragmentName] = true
+	defer delete(visitedFragments.inProgress, fragmentName)
+	if checkDepthSelectionSet(fragment.SelectionSet, visitedFragments, depth) {
+		return true
+	}
+	// Remember the result: a fragment spread many times (fragments that fan out into each
+	// other double the work at every level otherwise) is explored once per depth at most.
+	if clearedAt, ok := visitedFragments.cleared[fragmentName]; !ok || depth > clearedAt {
+		visitedFragments.cleared[fragmentName] = depth
+	}
+	return false
+}
+
+// introspectionDepthState is the bookkeeping of one depth check: the fragments on the current
+// path, and for the fragments that were explored completely the deepest starting depth from
+// which the limit was not reached.
+type introspectionDepthState struct {
+	inProgress map[string]bool
+	cleared    map[string]int
 }
 
 func init() {
